@@ -52,10 +52,11 @@ func concScheds(r *vx.Run, c mvx.Cfg, all bool) []*vx.Sched {
 		name     string
 		wa, wb   int  // write lists of the two competing pending updates
 		bCommits bool // the second fork is committed too instead of rolled back
+		readers  bool // no writers: two readers read the two committed roots in opposite orders
 	}
-	scens := []scen{{"fork-commit-vs-rollback", 1, 3, false}, {"fork-both-commit", 1, 4, true}, {"same-content-fork", 1, 1, false}}
+	scens := []scen{{"fork-commit-vs-rollback", 1, 3, false, false}, {"fork-both-commit", 1, 4, true, false}, {"same-content-fork", 1, 1, false, false}, {"two-readers-two-roots", 0, 0, false, true}}
 	if !r.Quick() || all {
-		scens = append(scens, scen{"fork-commit-vs-rollback-2", 4, 2, false}, scen{"restore-parent-content", 0, 2, true}, scen{"same-new-root-both-commit", 1, 1, true})
+		scens = append(scens, scen{"fork-commit-vs-rollback-2", 4, 2, false, false}, scen{"restore-parent-content", 0, 2, true, false}, scen{"same-new-root-both-commit", 1, 1, true, false})
 	}
 	for _, sc := range scens {
 		sc := sc
@@ -88,6 +89,24 @@ func concScheds(r *vx.Run, c mvx.Cfg, all bool) []*vx.Sched {
 				w.r0 = set(make([]byte, 32), wlists[2], 1)
 				w.c1 = applyW(w.c0, wlists[0])
 				w.r1 = set(w.r0, wlists[0], 2)
+				if sc.readers {
+					// two committed roots with different content, read concurrently in opposite orders
+					w.c1 = applyW(w.c0, wlists[1])
+					w.r1 = set(w.r0, wlists[1], 2)
+					for i, name := range []string{"reader1", "reader2"} {
+						i := i
+						vrt.GoNamed(name, func() {
+							roots, cont, what := [][]byte{w.r0, w.r1}, []map[string]string{w.c0, w.c1}, []string{"first", "second"}
+							for k := 0; k < 2; k++ {
+								j := (k + i) % 2
+								if f := readAll(w.st, roots[j], cont[j]); f != "" {
+									vrt.Own(func() { w.bad = append(w.bad, "concurrent read at the "+what[j]+" committed root: "+f) })
+								}
+							}
+						})
+					}
+					return
+				}
 				vrt.GoNamed("A", func() {
 					root, err := w.st.MemSet(&types.StoreSet{StateHash: w.r1, KV: mvx.KV(wlists[sc.wa]...), Height: 3}, true)
 					if err != nil {
